@@ -109,6 +109,11 @@ def oracle(ctx, n_cases):
             src = [[v * sc for v in p] for p in src]
         else:
             src = [[v * sc for v in p] for p in gen_set(rng, n)]
+        if mode == 'random' and rng.random() < 0.3:
+            # a fragment defined with its first atom exactly at the origin (as library fragments often are)
+            o = list(src[0])
+            src = [[p[k] - o[k] for k in range(3)] for p in src]
+            hist['first atom at the origin'] = hist.get('first atom at the origin', 0) + 1
         R, t = rand_rot(rng), [rng.uniform(-10, 10) * sc for _ in range(3)]
         noise = rng.choice([0.0, 0.0, 0.05, 0.3]) * sc
         if fixed_R is not None:
